@@ -9,7 +9,7 @@ prop = args[args.index("--prop")+1] if "--prop" in args else None
 only = args[args.index("--id")+1] if "--id" in args else None
 muts = json.load(open(os.path.join(root, "selftest", "mutants.json")))
 scratch = tempfile.mkdtemp(prefix="gocv-selftest-")
-env = dict(os.environ, GOFLAGS="-mod=mod", GOPROXY="off", GOSUMDB="off", GOTOOLCHAIN="local")
+env = dict(os.environ, GOFLAGS="-mod=mod", GOPROXY="off", GOSUMDB="off", GOTOOLCHAIN="local", GOCV_NO_RETRY="1")
 bad = 0
 try:
     subprocess.run(["rsync", "-a", "--exclude", ".git", "/repo/", scratch + "/"], check=True)
